@@ -51,7 +51,7 @@ Slice(b, p, n) == SubSeq(b, p, p + n - 1)     \* 1-based position p
 
 -----------------------------------------------------------------------------
 (* Reference decoder.  Decode(b, p) reads one object starting at 1-based      *)
-(* position p.  Result: [ok, err, v, p]  err \in {"", "trunc", "illformed"}   *)
+(* position p.  Result: [ok, err, v, p]  err \in {"", "trunc", "count", "illformed"}   *)
 
 Fail(e, p) == [ok |-> FALSE, err |-> e, v |-> <<"nil">>, p |-> p]
 Good(v, p) == [ok |-> TRUE, err |-> "", v |-> v, p |-> p]
@@ -66,22 +66,25 @@ TsFromData(d) ==
   ELSE \* 12 bytes: nanoseconds (uint32) then seconds (int64)
        LET s == IntS(Slice(d, 5, 8)) IN <<"ts", s[2], s[3], BEval(Slice(d, 1, 4))>>
 
-ExtValue(type, d) ==
-  IF type = 255 /\ Len(d) \in {4, 8, 12} THEN TsFromData(d) ELSE <<"ext", type, d>>
+\* dv = TRUE: the named deviation Dev_Timestamp96FieldOrder (timestamp 96 read as seconds(8) then nanoseconds(4))
+Signed32(b) == IF b[1] >= 128 THEN 0 - BEval(Negate(b)) ELSE BEval(b)
+TsFromDataDev(d) == LET s == IntS(Slice(d, 1, 8)) IN <<"ts", s[2], s[3], Signed32(Slice(d, 9, 4))>>
+ExtValue(type, d, dv) ==
+  IF type = 255 /\ Len(d) \in {4, 8, 12} THEN (IF dv /\ Len(d) = 12 THEN TsFromDataDev(d) ELSE TsFromData(d)) ELSE <<"ext", type, d>>
 
-RECURSIVE Decode(_, _), DecodeSeq(_, _, _, _), DecodePairs(_, _, _, _)
+RECURSIVE DecodeX(_, _, _), DecodeSeq(_, _, _, _, _), DecodePairs(_, _, _, _, _)
 
 \* reads n consecutive objects; acc = sequence read so far
-DecodeSeq(b, p, n, acc) ==
+DecodeSeq(b, p, n, acc, dv) ==
   IF n = 0 THEN Good(acc, p)
-  ELSE LET r == Decode(b, p) IN IF ~r.ok THEN r ELSE DecodeSeq(b, r.p, n - 1, Append(acc, r.v))
+  ELSE LET r == DecodeX(b, p, dv) IN IF ~r.ok THEN r ELSE DecodeSeq(b, r.p, n - 1, Append(acc, r.v), dv)
 
-DecodePairs(b, p, n, acc) ==
+DecodePairs(b, p, n, acc, dv) ==
   IF n = 0 THEN Good(acc, p)
-  ELSE LET k == Decode(b, p) IN
+  ELSE LET k == DecodeX(b, p, dv) IN
        IF ~k.ok THEN k
-       ELSE LET v == Decode(b, k.p) IN
-            IF ~v.ok THEN v ELSE DecodePairs(b, v.p, n - 1, Append(acc, <<k.v, v.v>>))
+       ELSE LET v == DecodeX(b, k.p, dv) IN
+            IF ~v.ok THEN v ELSE DecodePairs(b, v.p, n - 1, Append(acc, <<k.v, v.v>>), dv)
 
 Payload(b, p, hdr, tag) ==      \* hdr = number of length bytes after the format byte
   IF ~Avail(b, p + 1, hdr) THEN Fail("trunc", p)
@@ -89,12 +92,12 @@ Payload(b, p, hdr, tag) ==      \* hdr = number of length bytes after the format
        IF ~Avail(b, p + 1 + hdr, n) THEN Fail("trunc", p)
        ELSE Good(<<tag, Slice(b, p + 1 + hdr, n)>>, p + 1 + hdr + n)
 
-Container(b, p, hdr, isMap) ==
+Container(b, p, hdr, isMap, dv) ==
   IF ~Avail(b, p + 1, hdr) THEN Fail("trunc", p)
   ELSE LET n == BEval(Slice(b, p + 1, hdr)) IN
-       IF n >= Huge \/ n > Len(b) THEN Fail("trunc", p)      \* more elements than bytes: necessarily truncated
-       ELSE IF isMap THEN LET r == DecodePairs(b, p + 1 + hdr, n, <<>>) IN IF r.ok THEN Good(<<"map", r.v>>, r.p) ELSE r
-            ELSE LET r == DecodeSeq(b, p + 1 + hdr, n, <<>>) IN IF r.ok THEN Good(<<"arr", r.v>>, r.p) ELSE r
+       IF n >= Huge \/ n > Len(b) THEN Fail("count", p)      \* more elements declared than bytes present: necessarily truncated
+       ELSE IF isMap THEN LET r == DecodePairs(b, p + 1 + hdr, n, <<>>, dv) IN IF r.ok THEN Good(<<"map", r.v>>, r.p) ELSE r
+            ELSE LET r == DecodeSeq(b, p + 1 + hdr, n, <<>>, dv) IN IF r.ok THEN Good(<<"arr", r.v>>, r.p) ELSE r
 
 Fixed(b, p, n, kind) ==       \* n data bytes after the format byte
   IF ~Avail(b, p + 1, n) THEN Fail("trunc", p)
@@ -102,24 +105,24 @@ Fixed(b, p, n, kind) ==       \* n data bytes after the format byte
        Good(IF kind = "u" THEN IntU(d) ELSE IF kind = "s" THEN IntS(d) ELSE IF kind = "f32" THEN <<"f32", d>> ELSE <<"f64", d>>,
             p + 1 + n)
 
-ExtFixed(b, p, n) ==
+ExtFixed(b, p, n, dv) ==
   IF ~Avail(b, p + 1, 1 + n) THEN Fail("trunc", p)
-  ELSE Good(ExtValue(b[p + 1], Slice(b, p + 2, n)), p + 2 + n)
+  ELSE Good(ExtValue(b[p + 1], Slice(b, p + 2, n), dv), p + 2 + n)
 
-ExtVar(b, p, hdr) ==
+ExtVar(b, p, hdr, dv) ==
   IF ~Avail(b, p + 1, hdr) THEN Fail("trunc", p)
   ELSE LET n == BEval(Slice(b, p + 1, hdr)) IN
        IF ~Avail(b, p + 1 + hdr, 1) \/ ~Avail(b, p + 2 + hdr, n) THEN Fail("trunc", p)
-       ELSE Good(ExtValue(b[p + 1 + hdr], Slice(b, p + 2 + hdr, n)), p + 2 + hdr + n)
+       ELSE Good(ExtValue(b[p + 1 + hdr], Slice(b, p + 2 + hdr, n), dv), p + 2 + hdr + n)
 
-Decode(b, p) ==
+DecodeX(b, p, dv) ==
   IF p > Len(b) THEN Fail("trunc", p)
   ELSE LET c == b[p] IN
     IF c <= 127 THEN Good(IntSmall(c), p + 1)
     ELSE IF c <= 143 THEN
-         LET r == DecodePairs(b, p + 1, c - 128, <<>>) IN IF r.ok THEN Good(<<"map", r.v>>, r.p) ELSE r
+         LET r == DecodePairs(b, p + 1, c - 128, <<>>, dv) IN IF r.ok THEN Good(<<"map", r.v>>, r.p) ELSE r
     ELSE IF c <= 159 THEN
-         LET r == DecodeSeq(b, p + 1, c - 144, <<>>) IN IF r.ok THEN Good(<<"arr", r.v>>, r.p) ELSE r
+         LET r == DecodeSeq(b, p + 1, c - 144, <<>>, dv) IN IF r.ok THEN Good(<<"arr", r.v>>, r.p) ELSE r
     ELSE IF c <= 191 THEN
          IF Avail(b, p + 1, c - 160) THEN Good(<<"str", Slice(b, p + 1, c - 160)>>, p + 1 + (c - 160)) ELSE Fail("trunc", p)
     ELSE IF c = 192 THEN Good(<<"nil">>, p + 1)
@@ -129,9 +132,9 @@ Decode(b, p) ==
     ELSE IF c = 196 THEN Payload(b, p, 1, "bin")
     ELSE IF c = 197 THEN Payload(b, p, 2, "bin")
     ELSE IF c = 198 THEN Payload(b, p, 4, "bin")
-    ELSE IF c = 199 THEN ExtVar(b, p, 1)
-    ELSE IF c = 200 THEN ExtVar(b, p, 2)
-    ELSE IF c = 201 THEN ExtVar(b, p, 4)
+    ELSE IF c = 199 THEN ExtVar(b, p, 1, dv)
+    ELSE IF c = 200 THEN ExtVar(b, p, 2, dv)
+    ELSE IF c = 201 THEN ExtVar(b, p, 4, dv)
     ELSE IF c = 202 THEN Fixed(b, p, 4, "f32")
     ELSE IF c = 203 THEN Fixed(b, p, 8, "f64")
     ELSE IF c = 204 THEN Fixed(b, p, 1, "u")
@@ -142,19 +145,21 @@ Decode(b, p) ==
     ELSE IF c = 209 THEN Fixed(b, p, 2, "s")
     ELSE IF c = 210 THEN Fixed(b, p, 4, "s")
     ELSE IF c = 211 THEN Fixed(b, p, 8, "s")
-    ELSE IF c = 212 THEN ExtFixed(b, p, 1)
-    ELSE IF c = 213 THEN ExtFixed(b, p, 2)
-    ELSE IF c = 214 THEN ExtFixed(b, p, 4)
-    ELSE IF c = 215 THEN ExtFixed(b, p, 8)
-    ELSE IF c = 216 THEN ExtFixed(b, p, 16)
+    ELSE IF c = 212 THEN ExtFixed(b, p, 1, dv)
+    ELSE IF c = 213 THEN ExtFixed(b, p, 2, dv)
+    ELSE IF c = 214 THEN ExtFixed(b, p, 4, dv)
+    ELSE IF c = 215 THEN ExtFixed(b, p, 8, dv)
+    ELSE IF c = 216 THEN ExtFixed(b, p, 16, dv)
     ELSE IF c = 217 THEN Payload(b, p, 1, "str")
     ELSE IF c = 218 THEN Payload(b, p, 2, "str")
     ELSE IF c = 219 THEN Payload(b, p, 4, "str")
-    ELSE IF c = 220 THEN Container(b, p, 2, FALSE)
-    ELSE IF c = 221 THEN Container(b, p, 4, FALSE)
-    ELSE IF c = 222 THEN Container(b, p, 2, TRUE)
-    ELSE IF c = 223 THEN Container(b, p, 4, TRUE)
+    ELSE IF c = 220 THEN Container(b, p, 2, FALSE, dv)
+    ELSE IF c = 221 THEN Container(b, p, 4, FALSE, dv)
+    ELSE IF c = 222 THEN Container(b, p, 2, TRUE, dv)
+    ELSE IF c = 223 THEN Container(b, p, 4, TRUE, dv)
     ELSE Good(IntSmall(c - 256), p + 1)
+
+Decode(b, p) == DecodeX(b, p, FALSE)
 
 \* Position just after the object at p, or 0 when there is no complete well-formed object (the format's skip function)
 ValueEnd(b, p) == LET r == Decode(b, p) IN IF r.ok THEN r.p ELSE 0
@@ -248,6 +253,23 @@ Enc(v, w) ==
             \o <<v[2]>> \o v[3]
 
 Compact(v) == Enc(v, 0)
+
+-----------------------------------------------------------------------------
+(* Named deviation Dev_Timestamp96FieldOrder: the implementation reads and    *)
+(* writes timestamp 96 as seconds (8 bytes) followed by nanoseconds (4 bytes); *)
+(* the specification puts nanoseconds first.  DevTs96View(v, w) is the value   *)
+(* such a reader delivers for the spec-conformant encoding Enc(v, w).          *)
+IsTs96(v, w) == v[1] = "ts" /\ Enc(v, w)[1] = 199
+Ts96Swapped(v) ==
+  LET d == BEbytes(v[4], 4) \o (IF v[2] THEN Negate(v[3]) ELSE v[3])
+      s == IntS(SubSeq(d, 1, 8))
+  IN <<"ts", s[2], s[3], Signed32(SubSeq(d, 9, 12))>>
+RECURSIVE DevTs96View(_, _)
+DevTs96View(v, w) ==
+  IF v[1] = "ts" THEN (IF IsTs96(v, w) THEN Ts96Swapped(v) ELSE v)
+  ELSE IF v[1] = "arr" THEN <<"arr", [i \in 1..Len(v[2]) |-> DevTs96View(v[2][i], w)]>>
+  ELSE IF v[1] = "map" THEN <<"map", [i \in 1..Len(v[2]) |-> <<DevTs96View(v[2][i][1], w), DevTs96View(v[2][i][2], w)>>]>>
+  ELSE v
 
 \* alternative legal encoding of a non-negative integer in the signed family (int8..int64), k = 1,2,4,8 bytes
 EncPosAsSigned(m, k) ==
